@@ -1,8 +1,15 @@
 package protocol
 
-import "fmt"
+import (
+	"fmt"
+	"sync"
+)
 
 var Connections map[string]*Monitor
+
+// connectionsMu guards Connections: every tunnel registers and removes itself
+// from its own handler goroutine
+var connectionsMu sync.Mutex
 
 type Monitor struct {
 	Processor *Processor
@@ -14,6 +21,9 @@ const (
 )
 
 func RegisterTunnel(t *Tunnel, p *Processor) {
+	connectionsMu.Lock()
+	defer connectionsMu.Unlock()
+
 	if Connections == nil {
 		Connections = make(map[string]*Monitor)
 	}
@@ -25,6 +35,9 @@ func RegisterTunnel(t *Tunnel, p *Processor) {
 }
 
 func RemoveTunnel(t *Tunnel) {
+	connectionsMu.Lock()
+	defer connectionsMu.Unlock()
+
 	delete(Connections, t.Id)
 }
 
